@@ -49,13 +49,14 @@ EXPECTED_PROBES = ["op_set_geometry", "op_concat", "op_pickle", "op_cx", "op_col
                    "use_sjoin", "use_hilbert", "earlier_frame_rechecked",
                    "earlier_dask_frame_rechecked", "dask_parquet_geometry_and_bounds_kw",
                    "inactive_column_named_geometry", "dask_concat", "dask_repartition", "dask_filter",
-                   "op_set_geometry_inplace", "op_concat_of_empty_frames"]
+                   "op_set_geometry_inplace", "op_concat_of_empty_frames",
+                   "dask_two_frames_same_schema_other_active"]
 
 PANDAS_OPS = ("set_geometry", "set_geometry_same_then_inplace", "iloc", "mask", "query", "head",
               "take", "sample", "sort_values", "copy", "colsubset", "colsubset_other",
               "colsubset_nogeo", "cx", "pickle", "concat", "concat_empty", "assign", "rename")
 DASK_OPS = ("d_from_pandas", "d_set_geometry", "d_persist", "d_compute", "d_parquet", "d_concat",
-            "d_repartition", "d_filter")
+            "d_repartition", "d_filter", "d_concat_other_active")
 
 
 def cases(tier, base_seed):
@@ -247,6 +248,32 @@ def _drive(case, root, fs, probes, sig, done):
                 import dask.dataframe as dd
                 ddf = _guard("dd.concat", lambda: dd.concat([ddf, ddf]), sig)
                 probes["dask_concat"] = 1
+            elif op == "d_concat_other_active":
+                # a second Dask frame over the same data and schema but with ANOTHER active
+                # geometry, in the same process: neither may pick up the other's meta
+                import dask.dataframe as dd
+                if not isinstance(df, GeoDataFrame) or len(df) == 0:
+                    continue
+                cols = [c for c in _geo_cols(df) if c != active]
+                if active not in _geo_cols(df) or not cols:
+                    continue
+                other = cols[st["bits"] % len(cols)]
+                da = e1.make_ddf(df, {"mode": "even", "k": 1})
+                db = e1.make_ddf(df.set_geometry(other), {"mode": "even", "k": 1})
+                ca = _guard("dd.concat (frame A)", lambda: dd.concat([da, da]), sig)
+                cb = _guard("dd.concat (frame B)", lambda: dd.concat([db, db]), sig)
+                probes["dask_two_frames_same_schema_other_active"] = 1
+                _check_dask(ca, active, "d_concat_other_active[A]", sig, probes, st, light=True)
+                if ca.geometry.name != active:
+                    raise Bad("dask-active-changed@d_concat_other_active",
+                              f"collection A reports {ca.geometry.name!r}, expected {active!r}")
+                if cb.geometry.name != other:
+                    raise Bad("dask-active-changed@d_concat_other_active",
+                              f"a second frame with the same schema but active {other!r} reports "
+                              f"{cb.geometry.name!r} after dd.concat")
+                _check_dask(cb, other, "d_concat_other_active[B]", sig, probes, st, light=True)
+                done.append((op, active, other))
+                continue
             elif op == "d_repartition":
                 if not (1 <= st["k"] < ddf.npartitions):
                     continue        # only to fewer partitions (Dask asserts otherwise)
